@@ -290,6 +290,7 @@ def dry_compare(pre, rc, se):
 def state_job(job):
     case, threads = job[0], job[1]
     dry, failpos = (job[2], job[3]) if len(job) > 2 else (False, 0)
+    failpos = failpos or case['st'].get('fail', 0)
     custom = job[4] if len(job) > 4 else None           # bytes of the broken patch file (instead of BROKEN[how])
     st, v = case['st'], case['verdict']
     n = st['n']
@@ -305,6 +306,8 @@ def state_job(job):
                 if st['broken']['how'] != 'missing':
                     ws.write(w, 'patches/' + name, custom if custom is not None else BROKEN[st['broken']['how']])
                 continue
+            if st.get('b2', 0) == i:
+                continue                    # a second patch file that is missing, behind the first broken one
             # failpos (C10 only): this patch does not apply (it expects a cell value the file never has)
             fp = {'kind': 'M', 'old': 'a', 'new': 'a', 'ren': False, 'hunks': [{'cell': i, 'from': 7 if i == failpos else 0, 'to': 1}], 'to': [], 'from': [], 'nmode': 'none'}
             ws.write(w, 'patches/' + name, scen.render_fp(fp))
@@ -323,7 +326,25 @@ def state_job(job):
             return [('crash', 'exit status %s instead of a clean refusal: %s' % (rc, se.strip()[-300:]))]
         if rc != v['exit']:
             probs.append(('exit', 'exit status %d, model says %d (refused=%s, broken patch in range=%s): %s' % (rc, v['exit'], v['refused'], v['hitsBroken'], se.strip()[-150:])))
-        if v['exit'] == 1:
+        if v['exit'] == 1 and v.get('stoppedAt') and v.get('brokenBehind') and rc == 1 and after == before:
+            # a broken patch file behind the patch that does not apply: refusing everything is the other outcome the
+            # properties leave open (the parallel driver loads the whole range before it applies anything)
+            if not se.strip():
+                probs.append(('no-message', 'refusal without a message'))
+        elif v['exit'] == 1 and v.get('stoppedAt'):
+            # the push ends at a patch that does not apply: everything before it is applied and recorded, whatever is
+            # wrong with the patch files behind it
+            want_cells = [1 if i < v['appliedAfter'] else cells[i] for i in range(3)]
+            got = scen.cells_of(after.get('a', (b'',))[0])
+            if got != want_cells:
+                probs.append(('result', 'push ends at patch %d, which does not apply: cells of a are %s, expected %s' % (v['stoppedAt'], got, want_cells)))
+            ap = after.get('.pc/applied-patches')
+            names = ap[0].decode().split('\n')[:-1] if ap else []
+            if names != st['series'][:v['appliedAfter']]:
+                probs.append(('result', 'push ends at patch %d, which does not apply: applied-patches %s, expected %s' % (v['stoppedAt'], names, st['series'][:v['appliedAfter']])))
+            if after.get('other') != before.get('other'):
+                probs.append(('touched', 'a file no patch names was changed'))
+        elif v['exit'] == 1:
             if after != before:
                 ch = sorted(p for p in set(after) | set(before) if after.get(p) != before.get(p))
                 probs.append(('touched', 'the push was refused but changed %s' % ch))
